@@ -9,6 +9,7 @@ INVARIANT ContainsIsRef
 INVARIANT FormatIsRef
 INVARIANT UpdateIsRef
 INVARIANT DeleteIsRef
+INVARIANT NotationsAgree
 INVARIANT FuwIsRef
 INVARIANT ContainsAgreesWithGet
 INVARIANT GetAfterStrToDict
